@@ -77,6 +77,7 @@ type groupScen struct {
 	issuedIDs   map[string]map[string]bool          // client -> member ids issued
 	issuedGens  map[string]map[string]map[int32]bool // client -> member id -> generations joined
 	mustBeFresh map[string]*fenceMark               // client -> next join must carry an empty member id (if the fencing response arrived)
+	lastIssued  map[string]*issuedMark              // client -> the member id its last successful JoinGroup answer carried
 	fetchAnswered map[string]map[string]int64       // client -> partition -> offset answered by OffsetFetch
 	initial     int64
 	strategy    string
@@ -301,7 +302,7 @@ func scenGroup(r *run) {
 	cl.group, cl.fetch = gm, fm
 	fm.loadLogs(c)
 	cl.extra = gm.serve
-	gs := &groupScen{r: r, c: c, cl: cl, gm: gm, fm: fm, maxDelivered: map[string]int64{}, issuedIDs: map[string]map[string]bool{}, issuedGens: map[string]map[string]map[int32]bool{}, mustBeFresh: map[string]*fenceMark{}, fetchAnswered: map[string]map[string]int64{}, strategy: c.Config.Strategy}
+	gs := &groupScen{r: r, c: c, cl: cl, gm: gm, fm: fm, maxDelivered: map[string]int64{}, issuedIDs: map[string]map[string]bool{}, issuedGens: map[string]map[string]map[int32]bool{}, mustBeFresh: map[string]*fenceMark{}, lastIssued: map[string]*issuedMark{}, fetchAnswered: map[string]map[string]int64{}, strategy: c.Config.Strategy}
 	gs.initial = sarama.OffsetNewest
 	if c.Config.InitialOldest {
 		gs.initial = sarama.OffsetOldest
@@ -698,6 +699,14 @@ func (gs *groupScen) checkFinalCommit(m *gmember, sr *sessRec) {
 
 // metaServed: one metadata response served to a member's client (it may be applied long after it was computed:
 // responses of different connections overtake one another).
+// issuedMark: the identity a client holds after a successful JoinGroup answer, until it is fenced or leaves.
+type issuedMark struct {
+	member string
+	c      *simConn
+	corr   int32
+	void   bool // a fencing answer was produced for the client, or it sent LeaveGroup, since
+}
+
 type metaServed struct {
 	serveUs int64
 	conn    *simConn
@@ -741,6 +750,14 @@ func (gs *groupScen) wireModelHooks() {
 		}
 		switch r := body.(type) {
 		case *sarama.JoinGroupRequest:
+			if li := gs.lastIssued[client]; li != nil && r.MemberId == "" && !li.void {
+				li.c.mu.Lock()
+				arrived := li.c.deliveredCorr[li.corr] && !li.c.sawError
+				li.c.mu.Unlock()
+				if arrived {
+					gs.r.violate("C07.stale-identity", "%s joins with an empty member id although the coordinator had issued it %q (answer delivered) and neither fenced it nor saw it leave", client, li.member)
+				}
+			}
 			if fm := gs.mustBeFresh[client]; fm != nil {
 				fm.c.mu.Lock()
 				arrived := fm.c.deliveredCorr[fm.corr] && !fm.c.sawError
@@ -757,6 +774,22 @@ func (gs *groupScen) wireModelHooks() {
 			check("Heartbeat", r.MemberId, r.GenerationId, true)
 		case *sarama.LeaveGroupRequest:
 			check("LeaveGroup", r.MemberId, 0, false)
+			if li := gs.lastIssued[client]; li != nil {
+				li.void = true
+			}
+			// Close leaves the group only after the running Consume call has returned (its session's final commit
+			// included): a LeaveGroup that arrives while Consume is still active has overtaken the session's end
+			for _, m := range gs.members {
+				if m.cfg == nil || m.cfg.ClientID != client {
+					continue
+				}
+				m.mu.Lock()
+				active, crashed := m.consumeActive, m.crashed
+				m.mu.Unlock()
+				if active && !crashed {
+					gs.r.violate("C07.lifecycle-order", "member %d: LeaveGroup (member %q) reached the coordinator while its Consume call had not returned yet: the group was left before the session had ended and committed", m.idx, r.MemberId)
+				}
+			}
 		case *sarama.OffsetCommitRequest:
 			if r.ConsumerGroupGeneration >= 0 {
 				check("OffsetCommit", r.ConsumerID, r.ConsumerGroupGeneration, true)
@@ -765,9 +798,20 @@ func (gs *groupScen) wireModelHooks() {
 	}
 	gm.onIssued = func(client, member string, gen int32) { note(client, member, gen) }
 	gm.onFenced = func(client string, c *simConn, corr int32) {
+		if li := gs.lastIssued[client]; li != nil {
+			li.void = true
+		}
 		if !gs.cl.discarding {
 			gs.mustBeFresh[client] = &fenceMark{c, corr}
 		}
+	}
+	gm.onVoided = func(client string) {
+		if li := gs.lastIssued[client]; li != nil {
+			li.void = true
+		}
+	}
+	gm.onIssuedAt = func(client, member string, c *simConn, corr int32) {
+		gs.lastIssued[client] = &issuedMark{member: member, c: c, corr: corr}
 	}
 	gm.onOffsetFetch = func(client, key string, off int64) {
 		gs.mu.Lock()
